@@ -14,7 +14,7 @@ from sim.observe import layout_signature, observe
 
 ID = "C13"
 LEVEL = "exploration"
-TIERS = {"quick": {"runs": 8000, "budget_s": 70, "chunk": 50, "min_runs": 300},
+TIERS = {"quick": {"runs": 20000, "budget_s": 75, "chunk": 50, "min_runs": 300},
          "thorough": {"runs": 1000000, "budget_s": 1200, "chunk": 200, "min_runs": 5000}}
 RULE = ("case = seeded (3-10 definition fragments - #define, typedef, typedef chains, enum/flag with expressions over earlier "
         "members, structs/unions using earlier fragments, 'typedef struct {..} A, B;' - with their dependency DAG; a perturbed "
